@@ -234,6 +234,23 @@ func patternTrial(p string) (step, class, obs, exp string, outcome string) {
 			return "Handle(populated)", "handle-panic-not-error:" + pc, fmt.Sprintf("panic(%T): %v", v, v), "registered, or panic with an error value", outcome
 		}
 	}
+	// router that already has the same pattern up to parameter names: the ambiguity check walks it
+	if pp, err := ref.Parse(p, ref.Interceptors{}); err == nil && len(pp.AllNames()) > 0 {
+		for _, flip := range []bool{false, true} {
+			r3 := NewRouter(RouterCfg{})
+			if _, bad := Guard(func() { r3.Handle(renamed(pp, flip), hv.Route("h0"), nil, "GET") }); bad {
+				continue
+			}
+			if v, bad := Guard(func() { r3.Handle(p, hv.Route("h"), nil, "POST") }); bad {
+				if pc := PanicClass(v); pc != "error" {
+					return "Handle(after its renamed twin " + renamed(pp, flip) + ")", "handle-panic-not-error:" + pc, fmt.Sprintf("panic(%T): %v", v, v), "registered, or panic with an error value", outcome
+				}
+			}
+			if o := hv.Serve(r3, hv.Req{Method: "GET", Path: p}); o.Paniced {
+				return "Serve(after renamed twin)", "serve-panic-after-handle", fmt.Sprintf("panic: %v", o.Panic), "no panic", outcome
+			}
+		}
+	}
 	for _, path := range []string{p, "/a/1", "/ab", "/a/"} {
 		if o := hv.Serve(r2, hv.Req{Method: "GET", Path: path}); o.Paniced {
 			return "Serve(populated) " + fmt.Sprintf("%q", path), "serve-panic-after-handle", fmt.Sprintf("panic: %v", o.Panic), "no panic", outcome
